@@ -344,13 +344,13 @@ def run(ck: Checker):
         if t == 'INPUT':
             continue
         for n in semantics.arities(t, 3):
-            cnf = ct.clauses_of(repo, hmod, hname, n)
+            cnf = ct.clauses_of(repo, hmod, hname, n, call=table.calls[t])
             cons = f'{hname} for {t} arity {n}'
             if isinstance(cnf, str):
-                ck.bad('C01.SEM-SIB', hmod, hmod.func(hname), f'CNF template of {t}/{n}', f'handler rejects a legal arity ({cnf})', construct=cons)
+                ck.bad('C01.SEM-SIB', hmod, table.nodes[t], f'CNF template of {t}/{n}', f'handler rejects a legal arity ({cnf})', construct=cons)
                 continue
             probs = ct.check_template(t, n, cnf)
-            ck.check(not probs, 'C01.SEM-SIB', hmod, hmod.func(hname), f'CNF template of {t}/{n} denotes {t}', '; '.join(probs[:2]), construct=cons)
+            ck.check(not probs, 'C01.SEM-SIB', hmod, table.nodes[t], f'CNF template of {t}/{n} denotes {t}', '; '.join(probs[:2]), construct=cons)
     ct.check_repeats(ck, table, 'C01.SEM-SIB')
     # bench rewrites (function only; index/blocks are C14's)
     check_rewrites(ck, den, 'C01')
@@ -358,8 +358,8 @@ def run(ck: Checker):
     from .. import rewrites as rw
     _, _, conv = rw.find_convertors(ck)
     for t, (hmod, hname, knode, vnode) in conv.items():
-        if not any(o.rule == 'C01.TPL' and o.loc.func == hname for o in ck.obligations):
-            ck.ok('C01.SEM-SIB', hmod, hmod.func(hname), f'bench rewrite of {t} denotes {t}', construct=f'{hname} denotes {t}')
+        if not any(o.rule == 'C01.TPL' and f' on {t}(' in (o.loc.construct or '') for o in ck.obligations):
+            ck.ok('C01.SEM-SIB', hmod, conv.nodes[t], f'bench rewrite of {t} denotes {t}', construct=f'{hname} denotes {t}')
     ck.floor('C01.SEM-SIB', 100)
     ck.rule('C01.EVAL', 'the evaluators (evaluate_full_circuit, the explicit-stack evaluate_circuit, evaluate_circuit_outputs, evaluate, evaluate_at, get_truth_table) folded on instances of the repository\'s Circuit class over a family of model circuits (stored operands-first and users-first) and every assignment over False/True/Undefined: denotation under total assignments, soundness and monotonicity under partial ones, positional input binding, private work map')
     from .. import eval_fold
@@ -370,8 +370,9 @@ def run(ck: Checker):
     history_fold.fold_histories(ck, 'C01.HIST', only=(), observers=('get_truth_table', 'evaluate_full_circuit', 'evaluate_circuit'), n_hist=(120 if ck.tier == 'quick' else 1200))
     ck.floor('C01.HIST', 3)
     ck.floor('C01.EVAL', 6)
-    apply_rules(ck)
-    ck.floor('C01.APPLY', 18)
+    with ck.soft('C01.EVAL / C01.HIST (evaluators and truth tables folded over model circuits and inside histories)'):
+        apply_rules(ck)
+        ck.floor('C01.APPLY', 18)
     # the topological evaluator and per-gate truth tables walk the users index: gates with repeated operands must be indexed once per occurrence
     ck.rule('C01.IDX', 'adding a gate registers it as a user of each operand once per occurrence (top_sort counts operands with multiplicity; shared with C02.IDX)')
     from .C02 import fold_primitives
